@@ -45,11 +45,7 @@ contract(C + 'split_meta_tiles', props=['C04', 'C08'],
 
 
 # ---- TileManager._is_tile_missing / _load_tile_coords: every missing or stale tile goes to the creator ---------------------------
-cls(C + 'TileManager', fields=dict(grid='opaque', cache='opaque', sources='list[opaque]', rescale_tiles='int', identifier='opaque',
-                                   meta_grid='opaque', format='opaque', image_opts='opaque', request_format='opaque',
-                                   minimize_meta_requests='opaque', concurrent_tile_creators='opaque', locker='opaque',
-                                   _expire_timestamp='opaque', _refresh_before='opaque', pre_store_filter='opaque',
-                                   bulk_meta_tiles='opaque', cache_rescaled_tiles='opaque'))
+cls(C + 'TileManager', fields=dict(c08_creator.TILE_MANAGER_FIELDS))
 
 
 def _missing_spec(ex, st, post, result):
@@ -90,12 +86,32 @@ def _collect_missing(ex, st, k):
     if len(miss) == 1:
         tile = st.env['tile']
         is_missing = ex.truth(st, miss[0].result)
-        goal = z3.And(goal, z3.BoolVal(any(a is tile for a in miss[0].args)),
+        margs = [a for a in miss[0].args if a is not miss[0].recv and getattr(a, 'ref', None) != getattr(st.env['self'], 'ref', -1)]
+        goal = z3.And(goal, z3.BoolVal(len(margs) == 2 and margs[0] is tile and margs[1] is st.env['cache_only']
+                                       and miss[0].kwargs.get('dimensions') is st.env['dimensions']),
                       is_missing == z3.BoolVal(len(app) == 1))
         if app:
             goal = z3.And(goal, z3.BoolVal(app[0].args[-1] is tile))
     yield ('every_missing_tile_is_collected', goal,
            'each requested tile is tested once and put on the to-create list exactly when it is missing or stale')
+
+
+def _created_delivered(ex, st, k):
+    import z3
+    from pyvc.values import eq
+    evs_ = _iter_events(st)
+    cont = [e for e in evs_ if e.name == 'contains']
+    sets = [e for e in evs_ if e.name == 'setattr:source']
+    ct = st.env['created_tile']
+    ok = len(cont) == 1 and len(cont[0].args) == 2 and cont[0].args[0].t.eq(st.env['tiles'].t)
+    g = z3.BoolVal(bool(ok))
+    if ok:
+        g = z3.And(g, eq(cont[0].args[1], ex.opaque_field_at(st, cont[0], ct, 'coord')),
+                   ex.truth(st, cont[0].result) == z3.BoolVal(len(sets) == 1))
+        if len(sets) == 1:
+            g = z3.And(g, eq(sets[0].args[1], ex.opaque_field_at(st, sets[0], ct, 'source')))
+    yield ('created_tile_is_delivered', g,
+           'every created tile whose address was requested hands its image to the requested tile (source copied, unchanged)')
 
 
 def _creator_gets_missing(ex, st, post, result):
@@ -130,6 +146,24 @@ def _creator_gets_missing(ex, st, post, result):
         yield ('creation_skipped_only_without_sources', shortcut if early else z3.Not(shortcut),
                'the tiles are returned as loaded, without testing them for missing/stale, exactly when there is no real source '
                '(sources == [] or a single DummySource) and rescale_tiles == 0')
+    else:
+        yield ('creation_skipped_only_without_sources', z3.BoolVal(False), 'TileManager.sources must be declared list[opaque]')
+    # rescaled stand-ins only when the creator delivered nothing and rescaling is configured
+    sc = [e for i, e in T.evs(st, '_scaled_tile', 'TileManager._scaled_tile')]
+    g = z3.BoolVal(True)
+    if cr:
+        made = cr[0][1].result
+        nothing = made.length() == 0 if hasattr(made, 'length') else z3.Not(ex.truth(st, made))
+        want = z3.And(nothing, to_int(h['rescale_tiles']) != 0)
+        g = want == z3.BoolVal(bool(sc))
+        for e in sc:
+            a = [x for x in e.args if x is not e.recv and getattr(x, 'ref', None) != getattr(post.env['self'], 'ref', -1)]
+            g = z3.And(g, z3.BoolVal(len(a) == 3 and a[1] is post.env['rescale_till_zoom'] and a[2] is post.env['rescaled_tiles']))
+    else:
+        g = z3.BoolVal(not sc)
+    yield ('rescaled_only_when_nothing_created', g,
+           'tiles are replaced by rescaled stand-ins exactly when the creator returned nothing and rescale_tiles is configured; '
+           'a created tile is never overwritten by a rescaled one')
     # the batch load from the cache comes first, with the caller's dimensions
     ld = T.evs(st, 'load_tiles')
     ok = len(ld) == 1 and (not cr or ld[0][0] < cr[0][0]) and ld[0][1].kwargs.get('dimensions') is post.env['dimensions'] \
@@ -147,7 +181,7 @@ contract(C + 'TileManager._load_tile_coords', props=['C13', 'C08', 'C04'],
                       'isinstance': {'returns': 'bool', 'pure': True}},
          opaque=['_is_tile_missing', 'creator', '_scaled_tile'],
          loops={0: dict(inv=[], types={}), 1: dict(inv=[], types={'uncached_tiles': 'list[opaque]'}, body_trace=[_collect_missing]),
-                2: dict(inv=[], types={})},
+                2: dict(inv=[], types={}, body_trace=[_created_delivered])},
          trace=[_creator_gets_missing])
 
 
